@@ -71,6 +71,11 @@ def gen(r, ids, depth, need_index=False, need_len=None):
     if op == 'slice':
         inner = gen(r, ids, depth - 1, True)
         n = out_len(inner)
+        if r.random() < 0.5:
+            # a slice OBJECT ds[a:b:c] (contiguous ranges, strides, negative bounds); the model sees the index list it denotes
+            o = lambda: r.choice([None, None] + list(range(-n - 1, n + 2)))
+            sl = (o(), o(), r.choice([None, None, 1, 1, 2, -1, 3]))
+            return Node('slice', sid, (tuple(range(n)[slice(*sl)]), sl), [inner])
         idx = [r.randrange(n) for _ in range(r.randint(0, n + 1))] if n else []
         if r.random() < 0.5:
             idx = sorted(set(idx))
@@ -103,7 +108,7 @@ def build(nd, ld):
     if nd.op == 'unbatch': return K[0].unbatch()
     if nd.op == 'concat': return K[0].concatenate(K[1])
     if nd.op == 'zip': return K[0].zip(K[1])
-    if nd.op == 'slice': return K[0][list(nd.a[0])]
+    if nd.op == 'slice': return K[0][slice(*nd.a[1])] if len(nd.a) > 1 else K[0][list(nd.a[0])]
     raise ValueError(nd.op)
 
 
